@@ -88,6 +88,8 @@ FragSamplesR(moofs, id, trexDur, i, j, acc) ==
   ELSE IF j > Len(moofs[i].trafs) THEN FragSamplesR(moofs, id, trexDur, i + 1, 1, acc)
   ELSE LET tf == moofs[i].trafs[j] IN
        IF tf.tfhd.track_id # id THEN FragSamplesR(moofs, id, trexDur, i, j + 1, acc)
+       \* a track fragment without any run holds no samples ("the sum of the run counts")
+       ELSE IF tf.ntrun = 0 THEN FragSamplesR(moofs, id, trexDur, i, j + 1, [acc EXCEPT !.nfrag = @ + 1])
        ELSE IF ~TrafInDomain(tf) THEN FragSamplesR(moofs, id, trexDur, i, j + 1, [acc EXCEPT !.inDomain = FALSE])
        ELSE FragSamplesR(moofs, id, trexDur, i, j + 1,
                          [acc EXCEPT !.samples = @ \o RunSamples(moofs[i].off, tf, trexDur),
